@@ -848,6 +848,15 @@ class Executor:
                     if fault["kind"] == "missing":
                         raise FileNotFoundError(2, "No such file or directory: 'git'")
                     return result(128, "", "fatal: simulated git failure\n")
+                need = (git or {}).get("needs_env") or {}
+                if need:
+                    # this repository is only found through the caller's environment (GIT_DIR / GIT_WORK_TREE, as under a hook
+                    # or a bare-repository checkout): the peer sees what the child process is given, which is the caller's
+                    # environment unless an explicit one is passed
+                    seen = kw.get("env") if kw.get("env") is not None else os.environ
+                    if any(seen.get(k2) != v2 for k2, v2 in need.items()):
+                        ex.ev("git", [ex.relpath(c) for c in cmd[2:]], "env-missing")
+                        return result(128, "", "fatal: not a git repository (or any of the parent directories): .git\n")
                 if len(cmd) < 2 or os.path.basename(cmd[0]) != "git" or cmd[1] != "check-ignore":
                     ex.ev("git", [ex.relpath(c) for c in cmd[1:]], "unsupported")
                     return result(128, "", "fatal: not a git repository (nsim SimGit models check-ignore only)\n")
@@ -925,6 +934,10 @@ class Executor:
         ns.main.print = rec_print
 
         old = sys.stdout, sys.stderr, sys.argv, os.getcwd()
+        saved_env = {}
+        for k2, v2 in ((git or {}).get("needs_env") or {}).items():
+            saved_env[k2] = os.environ.get(k2)
+            os.environ[k2] = v2
         # S6: what standard output is: a lenient recorder (default), a strict UTF-8 stream, or closed (file descriptor 1 was
         # closed when the process started: Python sets sys.stdout to None and print() does nothing)
         sys.stdout, sys.stderr = (None if stdout_mode == "closed" else Recorder(out, "o", strict=stdout_mode == "strict")), Recorder(out, "e")
@@ -961,6 +974,11 @@ class Executor:
         finally:
             self.disarm_wall()
             sys.stdout, sys.stderr, sys.argv = old[0], old[1], old[2]
+            for k2, v2 in saved_env.items():
+                if v2 is None:
+                    os.environ.pop(k2, None)
+                else:
+                    os.environ[k2] = v2
             try:
                 os.chdir(old[3])
             except Exception:
